@@ -1768,6 +1768,7 @@ func Run(r *common.Run) error {
 		}
 		c.children(dd, s, cons, "random")
 	}
+	c.runE()
 	return nil
 }
 
@@ -1897,7 +1898,41 @@ func (c *ctx) replay(lines []string) error {
 				}
 			}
 			c.hist(unfield(f[2]), ops, "replay")
+		case "elem":
+			if len(f) != 7 || i+1 >= len(lines) || !strings.HasPrefix(lines[i+1], "#elem ") {
+				continue
+			}
+			ps, err := decPats(f[4])
+			if err != nil {
+				return err
+			}
+			sx, _ := common.UnHex(strings.TrimPrefix(lines[i+1], "#elem "))
+			c.elem(f[2], unfield(f[3]), ps, string(sx), decInts(f[6]), "replay")
+		case "overlap":
+			if len(f) != 11 || i+2 >= len(lines) || !strings.HasPrefix(lines[i+1], "#a ") || !strings.HasPrefix(lines[i+2], "#b ") {
+				continue
+			}
+			ps, err := decPats(f[4])
+			if err != nil {
+				return err
+			}
+			ax, _ := common.UnHex(strings.TrimPrefix(lines[i+1], "#a "))
+			bx, _ := common.UnHex(strings.TrimPrefix(lines[i+2], "#b "))
+			var warm, at, pre int
+			fmt.Sscan(f[3], &warm)
+			fmt.Sscan(f[7], &at)
+			fmt.Sscan(f[8], &pre)
+			c.overlap(f[2], warm, ps, string(ax), decInts(f[6]), at, pre, string(bx), decInts(f[10]), "replay")
 		case "iqdirect":
+			if len(f) == 8 && i+1 < len(lines) && strings.HasPrefix(lines[i+1], "#addr ") {
+				ps, err := decPats(f[4])
+				if err != nil {
+					return err
+				}
+				sx, _ := common.UnHex(strings.TrimPrefix(lines[i+1], "#addr "))
+				c.addrDirect(ps, string(sx), decInts(f[6]), f[2], "replay")
+				continue
+			}
 			if len(f) != 7 || i+1 >= len(lines) {
 				continue
 			}
@@ -1953,6 +1988,15 @@ func (c *ctx) replay(lines []string) error {
 			cons := decInts(f[6])
 			c.dispatch(ps, string(sx), cons, nil, "session", "replay")
 		case "direct":
+			if len(f) == 10 && i+1 < len(lines) && strings.HasPrefix(lines[i+1], "#addr ") {
+				ps, err := decPats(f[5])
+				if err != nil {
+					return err
+				}
+				sx, _ := common.UnHex(strings.TrimPrefix(lines[i+1], "#addr "))
+				c.addrDirect(ps, string(sx), decInts(f[7]), f[2], "replay")
+				continue
+			}
 			if len(f) != 9 || i+1 >= len(lines) || !strings.HasPrefix(lines[i+1], "#stanza ") {
 				continue
 			}
@@ -1997,7 +2041,7 @@ func leanBool(b bool) string {
 func Facts(repo string) (string, error) {
 	var sb strings.Builder
 	sb.WriteString("-- GENERATED by `harness facts C14`: the real mux options and lookups run on complete finite domains; do not edit.\n")
-	sb.WriteString("import XmppModel.Model.Mux\n")
+	sb.WriteString("import XmppModel.Model.Mux\nimport XmppModel.Model.MuxElem\n")
 	sb.WriteString("namespace XmppModel.Generated.C14\nopen XmppModel.Mux\n\n")
 	q := xml.Name{Space: "urn:a", Local: "x"}
 	found := func(ps []Pat, fn bool, kind, typ string) (res string) {
@@ -2223,6 +2267,64 @@ func Facts(repo string) (string, error) {
 		sb.WriteString("def fallbackTable : Option (List FallbackRow) := some [\n" + strings.Join(rows, ",\n") + "]\n\n")
 	} else {
 		sb.WriteString("def fallbackTable : Option (List FallbackRow) := none\n\n")
+	}
+	// ---- which stanza router an element reaches ------------------------------------------------
+	// every construction of the multiplexer value x the namespace given to New x element names over
+	// {none, the stanza namespaces, another} x {iq, message, presence, x}: the multiplexer holds the
+	// bare wildcard of every kind, the element carries type="get" and one child; the router is the
+	// kind of the handler that ran
+	rows = nil
+	ok = true
+	for _, ctor := range ctors {
+		for _, ns := range []string{"", c08.NSClient, c08.NSServer} {
+			for _, sp := range []string{"", c08.NSClient, c08.NSServer, "jabber:component:accept", "urn:a"} {
+				for _, local := range []string{"iq", "message", "presence", "x"} {
+					var seen []string
+					opts := []mux.Option{
+						mux.IQFunc(stanza.GetIQ, xml.Name{}, func(stanza.IQ, xmlstream.TokenReadEncoder, *xml.StartElement) error {
+							seen = append(seen, ".iq")
+							return nil
+						}),
+						mux.MessageFunc(stanza.NormalMessage, xml.Name{}, func(stanza.Message, xmlstream.TokenReadEncoder) error {
+							seen = append(seen, ".msg")
+							return nil
+						}),
+						mux.PresenceFunc(stanza.PresenceType("get"), xml.Name{}, func(stanza.Presence, xmlstream.TokenReadEncoder) error {
+							seen = append(seen, ".pres")
+							return nil
+						}),
+					}
+					pn := ""
+					var m *mux.ServeMux
+					if ctor == "zero" || ctor == "value" {
+						m, pn = buildCtor(ctor, "", opts)
+					} else {
+						m, pn = buildCtor(ctor, ns, opts)
+					}
+					if pn == "" {
+						pn = common.Recover(func() {
+							name := xml.Name{Space: sp, Local: local}
+							start := xml.StartElement{Name: name, Attr: []xml.Attr{{Name: xml.Name{Local: "type"}, Value: "get"}}}
+							_ = m.HandleXMPP(&framedReader{toks: []xml.Token{xml.StartElement{Name: q}, xml.EndElement{Name: q}, xml.EndElement{Name: name}}, framing: "sep"}, &start)
+						})
+					}
+					out := ".nop"
+					switch {
+					case pn != "" || len(seen) > 1:
+						ok = false
+					case len(seen) == 1:
+						out = seen[0]
+					}
+					rows = append(rows, fmt.Sprintf("  ⟨.%s, %s, ⟨%s, %s⟩, %s⟩", ctor, leanStr(ns), leanStr(sp), leanStr(local), out))
+				}
+			}
+		}
+	}
+	sb.WriteString("/-- (construction, namespace given to New, element name, the stanza router the element reached) -/\n")
+	if ok {
+		sb.WriteString("def routeTable : Option (List RouteRow) := some [\n" + strings.Join(rows, ",\n") + "]\n\n")
+	} else {
+		sb.WriteString("def routeTable : Option (List RouteRow) := none\n\n")
 	}
 	sb.WriteString("end XmppModel.Generated.C14\n")
 	return sb.String(), nil
